@@ -288,7 +288,14 @@ pub fn drive<E: Engine>(engine: &E, args: &Args) -> i32 {
     let mut rng = Rng::new(derive(seed, engine.name(), i));
     let case = engine.generate(&mut rng, thorough);
     let mut out = RunOut::new();
+    let t0 = std::time::Instant::now();
     let (vs, _trace) = engine.execute(&case, &worker_root(w), &mut out.stats);
+    if let Ok(limit) = std::env::var("VERIF_SLOWLOG") {
+      // debugging aid: which cases are slow (never part of a verdict)
+      if t0.elapsed().as_secs_f64() > limit.parse::<f64>().unwrap_or(5.0) {
+        eprintln!("slow case: run {} took {:.1}s: {}", i, t0.elapsed().as_secs_f64(), serde_json::to_string(&engine.sample(&case)).unwrap_or_default().chars().take(400).collect::<String>());
+      }
+    }
     out.stats.inc("runs");
     for v in relevant(&vs, property) {
       out.violations.push((v.clone(), serde_json::to_value(&case).unwrap()));
